@@ -1,9 +1,12 @@
-INIT InitHdr
-NEXT NextHdr
-INVARIANT InvHdr
+INIT Init
+NEXT Next
+INVARIANT Inv
 CHECK_DEADLOCK FALSE
 CONSTANTS
   FullLen = 2
   CoreLen = 3
+  OpcLen = 1
   FmtLen = 2
+  WideLen = 2
   Tuples = {1, 2, 3, 4, 5, 6}
+  Modes = {"prog", "opc", "hdr", "wide"}
